@@ -347,6 +347,7 @@ func runEvmTx(r *hx.R, n int, w *hx.W, _ []string) error {
 			}
 			// gas used per message, from the responses
 			var used []uint64
+			var failedMsg []bool
 			if res.Code == 0 {
 				var txMsgData sdk.TxMsgData
 				if err := a.AppCodec().Unmarshal(res.Data, &txMsgData); err == nil {
@@ -354,6 +355,7 @@ func runEvmTx(r *hx.R, n int, w *hx.W, _ []string) error {
 						var resp evm.MsgEthereumTxResponse
 						if err := a.AppCodec().Unmarshal(any.Value, &resp); err == nil {
 							used = append(used, resp.GasUsed)
+							failedMsg = append(failedMsg, resp.Failed())
 						}
 					}
 				}
@@ -396,8 +398,22 @@ func runEvmTx(r *hx.R, n int, w *hx.W, _ []string) error {
 			if os.Getenv("VERIF_DEBUG") != "" && res.Code != 0 {
 				fmt.Fprintln(os.Stderr, "DEBUG", w.N+1, cls, res.Codespace, res.Code, res.Log)
 			}
+			// where the contract creations of an accepted tx put their code: for each creation message `signer/nonce:E:F`, E = code
+			// exists at CreateAddress(signer, nonce), F = the message reported a VM failure (fifth token: for the oracle, not the model)
+			var deployed []string
+			if res.Code == 0 && specs != nil {
+				for j, sp := range specs {
+					if sp.kind != "create" {
+						continue
+					}
+					at := crypto.CreateAddress(sp.from.EthAddr, sp.nonce)
+					acc := a.EvmKeeper.GetAccount(chain.Ctx(), at)
+					f := j < len(failedMsg) && failedMsg[j]
+					deployed = append(deployed, fmt.Sprintf("%s/%d:%s:%s", strings.ToLower(sp.from.EthAddr.Hex()), sp.nonce, b01(acc != nil && acc.IsContract()), b01(f)))
+				}
+			}
 			w.Count("tx:" + cls)
-			w.Step("evmtx tx "+strings.Join(opMsgs, ","), cls+" "+render(chain.Ctx()))
+			w.Step("evmtx tx "+strings.Join(opMsgs, ","), cls+" "+render(chain.Ctx())+" D="+items(deployed))
 		}
 		chain.End()
 		chain.Commit()
